@@ -67,7 +67,7 @@ func resolveCB(p *Prog, r *Report, rule string) *cbInfo {
 		r.Anchor(rule, "cbreaker.CircuitBreaker", "type not found")
 		return nil
 	}
-	st := p.Named("cbreaker", "cbState")
+	st := namedRole(p, "cbreaker", "cbState")
 	if st == nil {
 		r.Anchor(rule, "cbreaker.cbState", "state type not found")
 		return nil
@@ -99,7 +99,7 @@ func resolveCB(p *Prog, r *Report, rule string) *cbInfo {
 	cb.lastF = fieldByRole(cb.typ, "lastCheck", isTimeT, func(f string) bool { return !storedWithState[f] })
 	cb.rcF = fieldByRole(cb.typ, "rc", func(t types.Type) bool {
 		n := derefNamed(t)
-		return n != nil && n.Obj().Name() == "ratioController"
+		return n != nil && n == namedRole(p, "cbreaker", "ratioController")
 	}, nil)
 	isHandlerT := func(t types.Type) bool { return isHTTPHandlerType(t) }
 	fbOpt := fieldSetByOption(p, "cbreaker", "Fallback", cb.typ)
@@ -502,7 +502,7 @@ func runC12(p *Prog, r *Report) {
 	// ---- R5: every request leaves the breaker's lock released, so the first request after recovery is not stuck behind an earlier one (shared with C09.R3 / C09.R4) ----
 	r.Floor("C12.R5", c09Pairing(p, r, "C12.R5", "cbreaker"), 4, "lock acquisitions in package cbreaker")
 	c09Reacquire(p, r, "C12.R5", []*types.Named{cb.typ})
-	rc := p.Named("cbreaker", "ratioController")
+	rc := namedRole(p, "cbreaker", "ratioController")
 	if rc == nil {
 		r.Anchor("C12.R1", "cbreaker.ratioController", "type not found")
 		return
